@@ -18,7 +18,9 @@ RULE = ("the reference target compares the first two bytes of every connected da
         ">= 40 real requests are issued across the wrap, for every phase offset; (c) lifecycle histories incl. redundant open() / with-blocks on an "
         "open driver, with lost replies / resets (a resent frame would repeat its count); (d) bulk read()/write() calls of n requests for n around "
         "every power of two up to 32 769 (many counts drawn between two frames, several multi-service packets back to back); (e) SLC histories of reads, writes, bit reads, get_datalog_queue, "
-        "get_processor_type, get_file_directory.  distinct = (request kind, phase offset | history, wrapped?) executed")
+        "get_processor_type, get_file_directory; (f) two drivers with a connection each in one process: bursts of 65533 / 65534 / 65535 messages of one between two messages of "
+        "the other; the project holds a 48-member structure so that uploads need several template-read messages; the stand-in for os.urandom returns edge values "
+        "(all ones, all zeros, near the top of the range) in a quarter of the calls.  distinct = (request kind, phase offset | history, wrapped?) executed")
 ASSUMPTIONS = [
     "workload (b) uses the driver's `_sequence` generator to reach the pre-wrap state quickly; when that attribute is absent only (a) and (c) run",
     "one connection at a time; counts are compared per connection",
